@@ -110,7 +110,7 @@ func isConfigName(p string) bool {
 }
 
 func genOne(cs *genCase) *genOut {
-	out := &genOut{Id: cs.Id, Tag: cs.Tag, Plan: []string{}, Ents: []genEnt{}}
+	out := &genOut{Id: cs.Id, Tag: cs.Tag, Plan: []string{}, Ents: []genEnt{}, T0: []int{0, 0, 0, 0, 0, 0}, T1: []int{0, 0, 0, 0, 0, 0}}
 	if cs.Tag == nil {
 		out.Tag = json.RawMessage("null")
 	}
@@ -191,7 +191,7 @@ func genOne(cs *genCase) *genOut {
 	}
 	sort.Slice(cfgs, func(i, j int) bool { return cfgs[i].path < cfgs[j].path })
 	for _, ci := range cfgs {
-		e := genEnt{Alias: ci.alias, Path: ci.path, Issuer: ci.issuer, Der: []int{}}
+		e := genEnt{Alias: ci.alias, Path: ci.path, Issuer: ci.issuer, Der: []int{}, Facts: genFacts{X509Diff: []string{}}}
 		p, ok := pems[ci.alias]
 		e.Exists = ok
 		if ok && p.Cert != nil {
